@@ -35,6 +35,8 @@ pub struct Knobs {
   pub deletions: bool,
   pub multi_text: bool,
   pub long_postings: bool,
+  /// every document holds the word `zig` once, a few hold it many times (block-max bounds differ between blocks)
+  pub spiky: bool,
 }
 
 impl Default for Knobs {
@@ -47,6 +49,7 @@ impl Default for Knobs {
       deletions: true,
       multi_text: true,
       long_postings: false,
+      spiky: false,
     }
   }
 }
@@ -124,7 +127,12 @@ pub fn make_doc(r: &mut StdRng, k: &Knobs, id: &str, ver: u64, vocab: usize) -> 
   let mut d = serde_json::Map::new();
   d.insert("_id".into(), json!(id));
   d.insert("ver".into(), json!(ver));
-  if k.long_postings {
+  if k.spiky {
+    let n0 = r.gen_range(1..=3);
+    let reps = if chance(r, 1, 150) { r.gen_range(2..=12) } else { 1 };
+    let go = if chance(r, 1, 2) { vec!["go"; r.gen_range(1..=2)].join(" ") } else { String::new() };
+    d.insert("body".into(), json!(format!("{} {} {}", vec!["zig"; reps].join(" "), go, words(r, n0, vocab))));
+  } else if k.long_postings {
     let n0 = r.gen_range(1..=4);
     d.insert("body".into(), json!(words(r, n0, vocab)));
   } else if k.multi_text && chance(r, 1, 6) {
